@@ -14,6 +14,9 @@ import (
 // C18 — data URI and media type helpers (claimed in part: the structural clauses only).
 
 func init() {
+	mutant(&Mutant{Name: "c18-base64-encoded-over-its-own-source", Property: "C18", File: "common.go",
+		Old: "encoded := make([]byte, base64Len-len(\";base64\"))", New: "encoded := dataURI[:base64Len-len(\";base64\")]",
+		Rule: "R18.9", Construct: "is fresh memory"})
 	register(&Property{
 		ID:    "C18",
 		Level: "other",
@@ -210,6 +213,7 @@ func runC18(c *Ctx) {
 		c.r118()
 	})
 	c.r187()
+	c.r189()
 }
 
 // R18.7 / R18.8: Mediatype finds the quoted strings and leaves them alone.
